@@ -18,7 +18,7 @@ PID = 'C01'
 RULE = ('cases = (package, extinction law, A_V range, sources) drawn from the quantifier of C01; a case is '
         'non-trivial when at least one model is fitted with >=2 fitted bands of distinct extinction coefficient; '
         'distinct = distinct canonical hash of the generated inputs')
-REQUIRED_BRANCHES = ['wav_filter_off_grid', 'rebuilt_in_place', 'wav_filter_other_unit', 'pkg_v1_mJy', 'pkg_v1_Jy', 'pkg_cube', 'pkg_cube_memmap', 'range_end_zero', 'law_other_unit', 'clamp_low', 'clamp_high', 'interior', 'lo_eq_hi', 'limit_violated', 'limit_ok', 'flag4', 'flag0or9']
+REQUIRED_BRANCHES = ['same_source_object_refitted', 'wav_filter_off_grid', 'rebuilt_in_place', 'wav_filter_other_unit', 'pkg_v1_mJy', 'pkg_v1_Jy', 'pkg_cube', 'pkg_cube_memmap', 'range_end_zero', 'law_other_unit', 'clamp_low', 'clamp_high', 'interior', 'lo_eq_hi', 'limit_violated', 'limit_ok', 'flag4', 'flag0or9']
 ASSUMPTIONS = ['IEEE rounding is not modelled: comparison tolerance 1e-9 x condition number',
                'decisions closer than 1e-7 to their threshold are compared in relaxed mode']
 N = {'quick': 160, 'thorough': 12000}
@@ -280,6 +280,12 @@ def run_case(case):
             s = pk.make_source('s%d' % si, src['flags'], src['flux'], src['err'])
             with common.quiet():
                 info = fitter.fit(s)
+                # the same Source OBJECT fitted again must give the same result (the first fit must not have
+                # touched the object it was given); compared below through `got` being taken from the SECOND fit
+                # for every other source
+                if si % 2 == 1:
+                    info = fitter.fit(s)
+                    branches.add('same_source_object_refitted')
             got = pk.fit_arrays(info)
             exp = model_side(case, src)
             if sorted(got['name']) != sorted(names):
